@@ -64,6 +64,7 @@ def gen_cases(tier, seed):
         add("maxblock", 1, bsid=4, raw=False, bcrc=True, sessions=3)
         add("maxblock", 1, bsid=5, raw=False, bcrc=True, sessions=2)
         add("maxblock", 1, bsid=4, raw=True, bcrc=True, sessions=2)
+        add("skipleak", 8)
     elif tier == "search":
         add("valid", 60, frames=3, sessions=8)
         add("mutated", 60, frames=4, sessions=4)
@@ -83,6 +84,7 @@ def gen_cases(tier, seed):
         for b in (4, 5):
             add("maxblock", 2, bsid=b, raw=False, bcrc=True, sessions=3)
             add("maxblock", 1, bsid=b, raw=True, bcrc=True, sessions=2)
+        add("skipleak", 30)
     else:
         add("valid", 300, frames=3, sessions=10)
         add("mutated", 300, frames=4, sessions=5)
@@ -99,12 +101,13 @@ def gen_cases(tier, seed):
         add("recycle", 24, bsid=4, sessions=4)
         add("recycle", 8, bsid=4, small_blocks=True, sessions=4)
         add("recycle", 6, bsid=5, sessions=4)
-        add("recycle", 2, bsid=4, sessions=5, one=True)
+        add("recycle", 1, bsid=4, sessions=5, one=True)
         for b in (4, 5, 6, 7):
             for raw in (False, True):
                 for bc in (True, False):
-                    add("maxblock", 2 if b <= 5 else 1, bsid=b, raw=raw, bcrc=bc, sessions=4 if b <= 5 else 2)
+                    add("maxblock", 2 if b <= 5 else 1, bsid=b, raw=raw, bcrc=bc, sessions=4 if b <= 5 else 3, nomodel=(b >= 6))
         add("maxblock", 1, bsid=4, raw=False, bcrc=True, sessions=1, one=True)
+        add("skipleak", 100)
     return cases
 
 def worker_init(ctx):
@@ -392,7 +395,7 @@ def k_recycle(st, acc, rng, case):
         plans.append({"chunking": "kb", "cap": "fix1", "contig": False})
     for p0 in plans[:case.get("sessions", 4)]:
         p = dict(p0); p.update({"skip": False, "stable": False, "dstnull": 0.0})
-        s = F.Session(st)
+        s = F.Session(st, no_model=(p["cap"] == "fix1"))      # 1-byte destination: ~270k calls, real code only
         if p["contig"]:
             s.cd.set_contig(len(content) + 70000)
         try:
@@ -451,6 +454,7 @@ def k_maxblock(st, acc, rng, case):
     if case.get("one"):
         plans.append(("one", "one", "large", True))          # 1-byte pieces: real code only (ASan, content)
     for name, chunking, cap, nomodel in plans[:case.get("sessions", 3)] + (plans[4:] if case.get("one") else []):
+        nomodel = nomodel or case.get("nomodel", False)      # 1 MB / 4 MB blocks: real code only (ASan, content, progress)
         s = F.Session(st, no_model=nomodel)
         try:
             r = F.drive(s, rng, fr, chunking, cap, bs=maxb, hlen=len(hdr), max_calls=5000000 if nomodel else 8000)
@@ -632,5 +636,13 @@ def run_case(st, case):
     elif kind == "corpus": k_corpus(st, acc, rng, case)
     elif kind == "recycle": k_recycle(st, acc, rng, case)
     elif kind == "maxblock": k_maxblock(st, acc, rng, case)
+    elif kind == "skipleak":
+        for j in range(4):
+            ev, f = F.run_skipleak(st, rng)
+            acc.evals += ev; acc.stats["skipleak_runs"] += 1
+            if f:
+                acc.fail(f[0], f[1], f[2]); break
+        else:
+            acc.keys.add("skipleak_%d" % case["bseed"])
     else: raise ValueError(kind)
     return acc.results()
